@@ -47,6 +47,11 @@ func genCacheCase(t *rapid.T) CacheCase {
 		more := rapid.SliceOfN(genCOp(copKinds), c.Limit, 3*c.Limit).Draw(t, "moreOps")
 		c.Ops = append(c.Ops, more...)
 	}
+	if vk.Rare(t, "marathon", 300) {
+		i := rapid.IntRange(0, len(c.Ops)).Draw(t, "marathonAt")
+		op := COp{Kind: "churn", K: rapid.IntRange(0, 80).Draw(t, "marathonKey"), S: rapid.IntRange(0, 11).Draw(t, "marathonKind")}
+		c.Ops = append(c.Ops[:i], append([]COp{op}, c.Ops[i:]...)...)
+	}
 	if rapid.IntRange(0, 2).Draw(t, "structured") > 0 {
 		// fill, touch a middle-aged key, remove a middle key, refill past the limit
 		var pre []COp
